@@ -79,7 +79,8 @@ func init() {
 		"fmt.Fprintln":            noEffect,
 		"strconv.Itoa":            freshString,
 		"os.IsNotExist":           noEffect,
-		"path/filepath.Join":      freshString,
+		"path/filepath.Join":      pathJoin,
+		"path.Join":               pathJoin,
 		"math.Float64bits":        float64bits,
 		"math.Float64frombits":    float64frombits,
 		"math.IsNaN": func(ex *Exec, st *State, fr *Frame, callee *ssa.Function, args []Val, c *ssa.CallCommon, pos token.Pos) Val {
@@ -124,8 +125,8 @@ func init() {
 		"(*os.File).Write":                        fsWrite,
 		"(*os.File).WriteAt":                      fsWrite,
 		"(*os.File).WriteString":                  fsWrite,
-		"os.WriteFile":                            fsWrite,
-		"io/ioutil.WriteFile":                     fsWrite,
+		"os.WriteFile":                            fsWriteFile,
+		"io/ioutil.WriteFile":                     fsWriteFile,
 		"os.Create":                               fsWrite,
 		"os.OpenFile":                             fsOpen,
 		"os.MkdirAll":                             fsWrite,
@@ -217,6 +218,14 @@ func lockIntrinsic(ex *Exec, st *State, fr *Frame, callee *ssa.Function, args []
 			ex.oblige(st, fr, "lock-nostack", pos, "", not(or(held...)))
 		}
 	}
+	// while this goroutine waited for the lock, others may have read the clock
+	{
+		s64 := ArrS(SRef, BV(64))
+		cur := ex.comp(st, "Ghost_clock", s64)
+		nc := ex.vc.Fresh("clock", BV(64))
+		ex.assume(st, app("bvsle", sel(cur, z64()), nc))
+		ex.setComp(st, "Ghost_clock", s64, sto(cur, z64(), nc))
+	}
 	ex.onLock(st, fr, k, args[0], pos)
 	st.locks[k] = "true"
 	return nil
@@ -266,12 +275,12 @@ func float64frombits(ex *Exec, st *State, fr *Frame, callee *ssa.Function, args 
 // comparisons matter. No overflow is assumed (A7).
 func timeNow(ex *Exec, st *State, fr *Frame, callee *ssa.Function, args []Val, c *ssa.CallCommon, pos token.Pos) Val {
 	t := ex.vc.Fresh("now", BV(64))
-	if last, ok := st.ghost["$lastNow"]; ok {
-		ex.assume(st, app("bvsle", sc(last).T, t))
-	}
+	// ghost $clock: the latest clock reading any goroutine has observed
+	ex.assume(st, app("bvsle", ex.ghostComp(st, "$clock"), t))
+	s64 := ArrS(SRef, BV(64))
+	ex.setComp(st, "Ghost_clock", s64, sto(ex.comp(st, "Ghost_clock", s64), z64(), t))
 	// instants are within +-2^62 so that adding a duration does not wrap (A7)
 	ex.assume(st, and(app("bvsle", bvLit(new(bigInt).Neg(new(bigInt).Lsh(bigOne, 61)), 64), t), app("bvsle", t, bvLit(new(bigInt).Lsh(bigOne, 61), 64))))
-	st.ghost["$lastNow"] = Sc{t, BV(64)}
 	ex.vc.Trust("A7: time.Now is non-decreasing; instants are abstract 64-bit counts without overflow")
 	return Sc{t, BV(64)}
 }
@@ -606,4 +615,67 @@ func nonNilResult(ex *Exec, st *State, fr *Frame, callee *ssa.Function, args []V
 	}
 	ex.vc.Trust("library constructors (New*) return non-nil objects")
 	return v
+}
+
+// Ghost file contents (whole-file writes): filepath.Join remembers its last
+// element (PathLast), os.WriteFile records the identity of the bytes written
+// under that name in the ghost component GhostFile.
+func pathJoin(ex *Exec, st *State, fr *Frame, callee *ssa.Function, args []Val, c *ssa.CallCommon, pos token.Pos) Val {
+	r := ex.freshVal(types.Typ[types.String], "path")
+	// variadic: the arguments arrive as one []string
+	if sl, ok := args[0].(*Agg); ok {
+		sv := ex.viewSlice(sl, c.Args[0].Type())
+		if n, ok := constBV(sv.ln); ok && n >= 1 {
+			last := sc(ex.load(st, sv.elemAddr(bvU(n-1, 64)))).T
+			ex.vc.DeclareFun("PathLast", []Sort{SStr}, SStr)
+			ex.assume(st, eq(app("PathLast", sc(r).T), last))
+		}
+	}
+	return r
+}
+
+const ghostFileKey = "GhostFile"
+
+func ghostFileSort() Sort { return ArrS(SRef, ArrS(SStr, BV(64))) }
+
+func fsWriteFile(ex *Exec, st *State, fr *Frame, callee *ssa.Function, args []Val, c *ssa.CallCommon, pos token.Pos) Val {
+	ex.ghostBump(st, "$fsWrites")
+	ex.vc.DeclareFun("PathLast", []Sort{SStr}, SStr)
+	res := ex.valOrErrResults(st, c.Signature().Results(), "fs")
+	errT := z64()
+	if s, ok := res.(Sc); ok {
+		errT = s.T
+	}
+	name := app("PathLast", sc(args[0]).T)
+	id := ex.bytesIdAny(st, args[1], c.Args[1].Type())
+	cur := ex.comp(st, ghostFileKey, ghostFileSort())
+	// on success the file holds exactly these bytes; on failure its content is unknown
+	unk := ex.vc.Fresh("filecontent", BV(64))
+	ex.setComp(st, ghostFileKey, ghostFileSort(), sto(cur, z64(), sto(sel(cur, z64()), name, ite(eq(errT, z64()), id, unk))))
+	ex.vc.Trust("file-system model: a successful os.WriteFile leaves the file holding exactly the bytes written (whole-file ghost content per file name)")
+	return res
+}
+
+// bytesIdAny: identity of a byte slice of any (possibly symbolic) length.
+func (ex *Exec) bytesIdAny(st *State, v Val, t types.Type) string {
+	sv := ex.viewSlice(v, t)
+	if sv.root {
+		if n, ok := constBV(sv.ln); ok && n > 0 && n <= 160 {
+			return ex.bytesId(st, v, t)
+		}
+		m := sc(ex.heapTree(st, AElems, sv.elemT)).T
+		return app("BytesId", sel(m, sv.ref), sv.off, sv.ln)
+	}
+	if n, ok := constBV(sv.ln); ok && n > 0 && n <= 160 {
+		parts := make([]string, 0, n)
+		for i := int64(n) - 1; i >= 0; i-- {
+			parts = append(parts, sc(ex.load(st, sv.elemAddr(bvInt(i, 64)))).T)
+		}
+		tt := parts[0]
+		if len(parts) > 1 {
+			tt = "(concat " + strings.Join(parts, " ") + ")"
+		}
+		return ex.msgId(Sc{ex.vc.Bind("msgbytes", BV(8*int(n)), tt), BV(8 * int(n))})
+	}
+	return ex.vc.Fresh("bytesid", BV(64))
 }
